@@ -302,6 +302,31 @@ fn canonicalize(
     Ok(buf)
 }
 
+/// The byte string that is signed (and hashed into key ids): the in-toto
+/// reference canonical JSON (OLPC canonical JSON), in which only backslash
+/// and double quote are escaped inside strings and every other character is
+/// written as raw UTF-8.
+pub(crate) fn canonicalize_for_signing(
+    jsn: &serde_json::Value,
+) -> std::result::Result<Vec<u8>, String> {
+    let converted = convert(jsn)?;
+    let mut buf = Vec::new();
+    let _ = converted.write_impl(&mut buf, true);
+    Ok(buf)
+}
+
+/// Write a string for the signing encoding: only `\` and `"` are escaped.
+fn write_signing_string(s: &str, buf: &mut Vec<u8>) {
+    buf.push(b'"');
+    for b in s.bytes() {
+        if b == b'\\' || b == b'"' {
+            buf.push(b'\\');
+        }
+        buf.push(b);
+    }
+    buf.push(b'"');
+}
+
 enum Value {
     Array(Vec<Value>),
     Bool(bool),
@@ -313,6 +338,14 @@ enum Value {
 
 impl Value {
     fn write(&self, buf: &mut Vec<u8>) -> std::result::Result<(), String> {
+        self.write_impl(buf, false)
+    }
+
+    fn write_impl(
+        &self,
+        buf: &mut Vec<u8>,
+        signing: bool,
+    ) -> std::result::Result<(), String> {
         match *self {
             Value::Null => {
                 buf.extend(b"null");
@@ -338,6 +371,10 @@ impl Value {
                 buf.extend(txt.as_bytes());
                 Ok(())
             }
+            Value::String(ref s) if signing => {
+                write_signing_string(s, buf);
+                Ok(())
+            }
             Value::String(ref s) => {
                 // this mess is abusing serde_json to get json escaping
                 let s = serde_json::Value::String(s.clone());
@@ -353,7 +390,7 @@ impl Value {
                     if !first {
                         buf.push(b',');
                     }
-                    a.write(buf)?;
+                    a.write_impl(buf, signing)?;
                     first = false;
                 }
                 buf.push(b']');
@@ -368,14 +405,18 @@ impl Value {
                     }
                     first = false;
 
-                    // this mess is abusing serde_json to get json escaping
-                    let k = serde_json::Value::String(k.clone());
-                    let k = serde_json::to_string(&k)
-                        .map_err(|e| format!("{:?}", e))?;
-                    buf.extend(k.as_bytes());
+                    if signing {
+                        write_signing_string(k, buf);
+                    } else {
+                        // this mess is abusing serde_json to get json escaping
+                        let k = serde_json::Value::String(k.clone());
+                        let k = serde_json::to_string(&k)
+                            .map_err(|e| format!("{:?}", e))?;
+                        buf.extend(k.as_bytes());
+                    }
 
                     buf.push(b':');
-                    v.write(buf)?;
+                    v.write_impl(buf, signing)?;
                 }
                 buf.push(b'}');
                 Ok(())
